@@ -27,10 +27,20 @@ def record_one(job):
     from .build import Gamma
     from .runner import Recorder
 
+    from . import build as _B
+
+    if job.get("recorder") == "userfcn":
+        from . import userfcn
+
+        return userfcn.record_one(dict(job, repo=REPO))
     a, b = job["gamma"]
     g = Gamma(Fraction(a), Fraction(b))
     rec = Recorder(g, budget=job.get("budget", 1024), tmpdir=job.get("tmpdir"))
-    events = rec.run(job["ops"])
+    _B.RECMODE[0] = job.get("rec", "dict")
+    try:
+        events = rec.run(job["ops"])
+    finally:
+        _B.RECMODE[0] = "dict"
     return {
         "id": job["id"],
         "nslots": job["nslots"],
